@@ -710,6 +710,11 @@ class ExprMixin:
         return typ
 
     def getattr_v(self, base, attr, fr, node=None):
+        if isinstance(base, FieldV) and base.op is not None and base.op.prim == 'parse_timestamp' and fr is not None and \
+                ('#notnone %s' % show(base)) not in fr.nonempty:
+            # parse_timestamp stores None for the all-ones word (the "no time" sentinel): an attribute of the parsed value is an
+            # attribute of None for that input
+            self.risk(fr, 'none-attr', ('builtins.AttributeError',), Sym('maybenone', base), node)
         if parser_alternatives(base):
             # one of several parsers (``try: parser = helper(...)  except: parser = ParserBinary(...)``): the attribute of each
             vals = [self.getattr_v(a, attr, fr, node) for a in base.args]
